@@ -41,6 +41,16 @@ func runC06(c *Ctx) {
 		}
 		nText++
 		switch w.Payload {
+		case "Mixed":
+			ok, cex := false, "Text arm not analysable"
+			if qT2, _ := sc.armQuery("Text", U, w.RawWhen); qT2 != nil {
+				if st := qT2.StateAt(w.Call); st != nil {
+					ok, cex = qT2.Holds(st, pa.Implies(w.RawWhen, U))
+				} else {
+					ok = true
+				}
+			}
+			R.Check(ok, "C06.R1", key, writeDescr(w), sc.pos(w.Call), "token.String(), or raw data only under allowUnsafe", "text can reach the output unescaped without AllowUnsafe: ["+cex+"]")
 		case "TokenString":
 			R.OK("C06.R1", key, writeDescr(w), sc.pos(w.Call), "escaped serialisation of the current token")
 		case "RawData":
